@@ -14,7 +14,7 @@
    (family hostile: a sentinel tree around the project is hashed before and after every command).
    Hypothesis: no symlinked directories on the way (a `data -> /etc` link is the user's doing). *)
 From Coq Require Import NArith List Bool.
-From DudV Require Import Base.Bytes Base.GoPath Model.Fs Model.Cache Model.Stage Proofs.Ownership Proofs.ContainProofs.
+From DudV Require Import Base.Bytes Base.GoPath Model.Fs Model.Cache Model.Stage Model.System Proofs.Ownership Proofs.ContainProofs Proofs.IndexLineProofs.
 Import ListNotations.
 Local Open Scope N_scope.
 
@@ -71,3 +71,26 @@ Proof.
         (conj valid_entry_name_slash valid_entry_name_nul)))).
 Qed.
 Print Assumptions C18_hostile_names.
+
+(* the index: a line is accepted exactly when it is relative and, once cleaned, neither ".." nor
+   below "..": the stage file it names (the file commit writes back) then lies at or below the
+   project root; a command on an index with one hostile line does nothing at all *)
+Theorem C18_index_line_inside :
+  forall root rcs l,
+    Forall okc rcs -> root = 47 :: join_comps rcs -> index_line_ok l = true ->
+    under root (join2 root l) = true.
+Proof. exact index_line_under_root. Qed.
+Print Assumptions C18_index_line_inside.
+
+Theorem C18_index_line_rejects :
+  forall l, index_line_ok l = false <->
+    is_abs l = true \/ clean l = [46; 46] \/ exists t, clean l = 46 :: 46 :: 47 :: t.
+Proof. exact index_line_ok_false_iff. Qed.
+Print Assumptions C18_index_line_rejects.
+
+Theorem C18_hostile_index_noop :
+  forall H sems w cmd,
+    forallb index_line_ok (w_index w) = false ->
+    step_checked H sems w cmd = (w, false, ONone).
+Proof. exact step_checked_hostile_index. Qed.
+Print Assumptions C18_hostile_index_noop.
